@@ -1,5 +1,5 @@
 from algo_prop import make
-LEAN_EXTRA = ["PyXABProofs.Generated.FormulasC11"]
+LEAN_EXTRA = ["PyXABProofs.Generated.OrderTieC11", "PyXABProofs.Generated.FormulasC11"]
 ALGOS = ['Zooming']
 budget, explore, search, replay = make("C11", ALGOS, quick_per_algo=24, thorough_per_algo=300, salt=1100)
 RULE = ("the documented pull/receive loop on the real classes: algorithm x partition class (K 2..5) x dimension 1..3 x box shape x "
@@ -34,7 +34,8 @@ def explore(tier, seed, n):
 
 
 def regenerate(tier):
-    """translator tie for the numeric formulas: the real methods are traced symbolically and re-proved equal to the
-    published formulas (Spec/Formulas.lean) over every field, on every run"""
-    import translate_formulas
-    return translate_formulas.generate("C11")
+    """translator ties re-proved on every run: numeric formulas traced from the real methods = published formulas over every
+    field (Spec/Formulas.lean), and selection rules run on order-only values for every order type = the model rules for all
+    values of any linear order (Spec/OrderType.lean, Props/OrderTie.lean)"""
+    import ties
+    return ties.regen("C11")
